@@ -139,6 +139,56 @@ def file_mode_case():
                 {"umask": "0..0o777", "target": "new or existing (any mode)"})
 
 
+def passphrase_case():
+    """a passphrase given to write_private_key / write_private_key_file reaches the serialiser as the encryption key
+    (and no passphrase means no encryption): the library, not paramiko, does the encrypting, so what has to hold on
+    paramiko's side is that the passphrase is handed over unchanged on every writing path of every key class"""
+    def fn(ctx):
+        import io
+        import os
+        import shutil
+        import tempfile
+        from cryptography.hazmat.primitives import serialization
+        from paramiko.rsakey import RSAKey
+        from paramiko.ecdsakey import ECDSAKey
+        cls = ctx.choice("key-class", ["RSAKey", "ECDSAKey"])
+        via = ctx.choice("written-through", ["write_private_key(file object)", "write_private_key_file(path)"])
+        pw = ctx.choice("passphrase", [None, "pw", "pass phrase \u00e9", b"\x00p"])
+        rec = []
+
+        class Lib:
+            def private_bytes(self, encoding, fmt, algo):
+                rec.append((encoding, fmt, algo))
+                return b"-----BEGIN X-----\n"
+        if cls == "RSAKey":
+            key = RSAKey.__new__(RSAKey)
+            key.key = Lib()
+        else:
+            key = ECDSAKey.__new__(ECDSAKey)
+            key.signing_key = Lib()
+        key.public_blob = None
+        d = tempfile.mkdtemp(prefix="c36")
+        try:
+            if via.startswith("write_private_key("):
+                key.write_private_key(io.StringIO(), password=pw)
+            else:
+                key.write_private_key_file(os.path.join(d, "k"), password=pw)
+        finally:
+            shutil.rmtree(d, ignore_errors=True)
+        ctx.prove(len(rec) == 1, "serialised-once")
+        algo = rec[0][2]
+        if pw is None:
+            ctx.prove(isinstance(algo, serialization.NoEncryption), "no-passphrase=>written-unencrypted")
+        else:
+            want = pw if isinstance(pw, bytes) else pw.encode("utf8")
+            ctx.prove(isinstance(algo, serialization.BestAvailableEncryption) and algo.password == want,
+                      "passphrase-given=>serialiser-encrypts-under-exactly-that-passphrase")
+    return Case("passphrase-reaches-the-serialiser", fn, ["passphrase-given=>serialiser-encrypts-under-exactly-that-passphrase",
+                                                          "no-passphrase=>written-unencrypted"],
+                {"key classes": ["RSAKey", "ECDSAKey"], "paths": ["write_private_key", "write_private_key_file"],
+                 "passphrases": [None, "pw", "non-ASCII text", "bytes"]})
+
+
 def cases(tier):
     curves = [256] if tier == "quick" else [256, 384, 521]
-    return [ecdsa_point_case(b) for b in curves] + [eq_hash_case(), file_mode_case()]
+    return [ecdsa_point_case(b) for b in curves] + [eq_hash_case(), file_mode_case(), passphrase_case()]
